@@ -201,7 +201,15 @@ def run_lines(exe, args, lines, timeout, env=None):
         p = subprocess.run([exe] + args, input=data, stdout=subprocess.PIPE, stderr=subprocess.PIPE, timeout=timeout,
                            env=e, preexec_fn=lambda: __import__("resource").setrlimit(
                                __import__("resource").RLIMIT_STACK, (-1, -1)))
-    except subprocess.TimeoutExpired:
+    except subprocess.TimeoutExpired as ex:
+        # keep what was answered before the deadline: the harness answers in input order and flushes every line, so the
+        # first case without an answer is the one that did not return
+        part = {}
+        for ln in (ex.stdout or b"").decode("utf-8", "replace").splitlines():
+            i = ln.find(" ")
+            if i > 0:
+                part[ln[:i]] = ln[i + 1:]
+        run_lines.partial = part
         return None, "timeout after %ss" % timeout, time.time() - t0
     res = {}
     for ln in p.stdout.decode("utf-8", "replace").splitlines():
@@ -226,6 +234,8 @@ def run_each_in_own_process(exe, lines, budget_s, env=None, cap=20000, workers=1
     todo = lines[::step]
     t0 = time.time()
     res = {}
+    timed_out = []
+    run_each_in_own_process.timed_out = timed_out
 
     def one(ln):
         if time.time() - t0 > budget_s:
@@ -234,8 +244,10 @@ def run_each_in_own_process(exe, lines, budget_s, env=None, cap=20000, workers=1
             p = subprocess.run([exe], input=(ln + "\n").encode(), stdout=subprocess.PIPE, stderr=subprocess.DEVNULL,
                                timeout=per_case_timeout, env=e)
         except subprocess.TimeoutExpired:
+            timed_out.append(ln.split(" ", 1)[0])
             return None
-        out = p.stdout.decode("utf-8", "replace").strip()
+        outl = p.stdout.decode("utf-8", "replace").splitlines()
+        out = outl[0] if outl else ""
         i = out.find(" ")
         if not out:
             return (ln.split(" ", 1)[0], None)
@@ -431,15 +443,49 @@ def main_check(mod, argv):
     model_out = None
     run_to = getattr(mod, "RUN_TIMEOUT", {"quick": 600, "thorough": 3000})[tier]
     if lines and getattr(mod, "HARNESS", None):
+        hang_found = False
         for prof, exe in exes.items():
+            if hang_found:
+                break
             res, err, dt = run_lines(exe, [], lines, run_to, getattr(mod, "ENV", None))
             if res is None:
+                part = getattr(run_lines, "partial", None) or {}
+                stuck = next(((k, c) for i, k, c in cases if i not in part), None)
+                if stuck is not None and part:
+                    # re-run the suspect alone with a short deadline to tell "this case does not return" from "the batch
+                    # as a whole was too slow"
+                    alone, _, _ = run_lines(exe, [], ["0 " + stuck[1]], 120, getattr(mod, "ENV", None))
+                    if alone is None:
+                        violations.append({"kind": "impl-vs-model", "case": stuck[1], "class": stuck[0], "profile": prof,
+                                           "impl": "NO ANSWER within 120 s (alone)", "model": "(not consulted)",
+                                           "why": "the implementation does not return on this case (batch timeout after %d "
+                                                  "answered cases; confirmed alone)" % len(part)})
+                        hang_found = True
+                        continue
+                    # the first unanswered case returns when run alone: look among ALL unanswered cases for one that does
+                    # not (each in a process of its own, 16 at a time, 45 s each)
+                    un = [(i, k, c) for i, k, c in cases if i not in part]
+                    _, _, _ = run_each_in_own_process(exe, ["%s %s" % (i, c) for i, k, c in un], 300,
+                                                      getattr(mod, "ENV", None), cap=4000, per_case_timeout=45)
+                    slow = set(getattr(run_each_in_own_process, "timed_out", []))
+                    for i, k, c in un:
+                        if i in slow:
+                            violations.append({"kind": "impl-vs-model", "case": c, "class": k, "profile": prof,
+                                               "impl": "NO ANSWER within 45 s (alone, in a process of its own)",
+                                               "model": "(not consulted)",
+                                               "why": "the implementation does not return on this case in 45 s (the batch timed out "
+                                                      "after %d answered cases; %d unanswered cases were then run one by one, %d of "
+                                                      "them did not answer)" % (len(part), len(un), len(slow))})
+                            hang_found = True
+                            break
+                    if hang_found:
+                        continue
                 violations.append({"kind": "harness-timeout", "profile": prof, "detail": err, "no_input": True})
             else:
                 impl_out[prof] = res
         # third pass: the release binary again with every case in a thread of its own (thread-local state of the library
         # in its initial condition for each case; the passes above see the state the preceding cases left behind)
-        if "release" in exes and getattr(mod, "FRESH_THREAD", True):
+        if "release" in exes and getattr(mod, "FRESH_THREAD", True) and not hang_found:
             env2 = dict(getattr(mod, "ENV", None) or {})
             env2["TFH_FRESH_THREAD"] = "1"
             res, err, dt = run_lines(exes["release"], [], lines, run_to, env2)
@@ -449,7 +495,7 @@ def main_check(mod, argv):
                 impl_out["release/fresh-thread"] = res
         # fourth pass: every case (a stride sample above 20000) as the only input of a process of its own: process-global
         # state of the library in its initial condition; partial by construction (time budget), missing ids are skipped
-        if "release" in exes and getattr(mod, "FRESH_PROCESS", True):
+        if "release" in exes and getattr(mod, "FRESH_PROCESS", True) and not hang_found:
             fp_res, fp_n, fp_dt = run_each_in_own_process(exes["release"], lines, 60 if tier == "quick" else 400,
                                                           getattr(mod, "ENV", None))
             partial_profiles["release/fresh-process"] = {"submitted": fp_n, "completed": len(fp_res), "wall_s": round(fp_dt, 1)}
